@@ -1,5 +1,5 @@
 /* C10 — the bare-metal heap of compat/mem/lin_malloc.cpp / lin_realloc.cpp: representation invariant
- * HEAP written out for a bounded number of free chunks, ghost live block, post-state readers
+ * HEAP written out for a bounded number of free chunks, abstract heap state, ghost live block
  * (DESIGN.md section C10).
  *
  * Layout the code maintains: [heap_start, __brkval) is tiled by chunks  | size_t sz | sz payload bytes |,
@@ -7,160 +7,223 @@
  * in address order starting at __flp.
  *
  * HEAP:
- *   H1  heap_start <= __brkval <= arena end, everything 8-aligned (offsets and sizes are multiples of
- *       sizeof(size_t): heap_start is aligned and every size the code stores is);
- *   H2  __flp is a NULL-terminated list of nf free chunks in strictly increasing address order, each
+ *   H1  heap_start <= __brkval <= arena end; every offset and size is a multiple of sizeof(size_t)
+ *       (heap_start is aligned and every size the code stores is), so the abstract state below counts
+ *       in WORDS of 8 bytes;
+ *   H2  __flp is a NULL-terminated list of n free chunks in strictly increasing address order, each
  *       with sz >= sizeof(void*) (a free chunk must hold the link), each inside [heap_start, __brkval);
  *   H3  no two free chunks are adjacent and the topmost chunk is not free (free() coalesces and lowers
  *       the break): between two free chunks, and between the last free chunk and __brkval, lies at least
- *       one live chunk, and a live chunk occupies >= 16 bytes (malloc's minimum payload is 8);
+ *       one live chunk, and a live chunk occupies >= 2 words (malloc's minimum payload is one word);
  *   H4  every live block lies inside [heap_start, __brkval), overlaps no free chunk and its header holds
- *       its size (>= 8): stated for ONE arbitrary ghost live block g_L (offset c10_Lo, size c10_Ls) - it
- *       is arbitrary, so this is the statement about every live block;
+ *       its size (>= 8): stated for ONE arbitrary ghost live block g_L (c10_Lo, c10_Ls) - it is arbitrary,
+ *       so this is the statement about every live block;
  *   H5  __allocation_counter == number of live blocks (ghost number c10_nlive, zero iff no byte is live).
- * The free list is an inductive structure: a pre-state is GENERATED for nf <= C10_NCHUNK (3) free chunks
- * at symbolic offsets with symbolic sizes inside an arena of C10_ARENA bytes; all remaining bytes of
- * the arena are arbitrary.  Every state satisfying HEAP with <= 3 free chunks inside such an arena is
- * generated, so "operation from a generated state ends in a state satisfying HEAP" is the inductive step
- * over histories; the bound is on the number of free chunks and the arena size, not on the history.
- * The post-state is read back from the real memory (c10_heap_walk, fails closed with -1). */
+ * The free list is an inductive structure: a pre-state is GENERATED for n <= C10_NCHUNK (3) free chunks
+ * at symbolic offsets with symbolic sizes inside an arena of C10_ARENA bytes whose remaining content is
+ * arbitrary.  Every state satisfying HEAP with <= 3 free chunks inside such an arena is generated, so
+ * "one operation from a generated state ends in a state satisfying HEAP" is the inductive step over
+ * histories; the bound is on the number of free chunks and the arena size, not on the history.
+ *
+ * Post-states: the harness derives the abstract post-state from the abstract pre-state and the value the
+ * code returned (for free(): from the pre-state alone - the coalesced representation is unique), checks
+ * the property's clauses on it (pure integer reasoning) and checks that the real memory encodes exactly
+ * that state (c10_mem_is: __flp, every sz and nx field, __brkval).  All spec reads of the arena are word
+ * indexed (cbmc turns those into array indexing; byte-offset walks over loaded pointers cost 100x more). */
 #ifndef C10_HEAP_H
 #define C10_HEAP_H
 #include "vc.h"
 
 #ifndef C10_ARENA
-#define C10_ARENA 1024
+#define C10_ARENA 256
 #endif
+#define C10_WORDS (C10_ARENA / sizeof(size_t))
 #ifndef C10_NCHUNK
 #define C10_NCHUNK 3
 #endif
-#define C10_HDR sizeof(size_t)
-#define C10_MINLIVE (C10_HDR + sizeof(void *)) /* smallest chunk: header + room for the free-list link */
+#define C10_MAXN (C10_NCHUNK + 2) /* array capacity of an abstract state: free() may add one chunk */
 
 /* the arena is an array of words (every access of the code is word-sized and word-aligned); the code sees
  * it as bytes through the glue macro c10_arena == (char *)c10_arena_w */
-size_t c10_arena_w[C10_ARENA / sizeof(size_t)];
+size_t c10_arena_w[C10_WORDS];
+#define C10_W(i) (c10_arena_w[(i)])                                              /* word i              */
+#define C10_P(i) (*(struct __freelist **)(c10_arena + 8 * (size_t)(i)))           /* word i as a pointer */
+#define C10_ADDR(i) ((struct __freelist *)(c10_arena + 8 * (size_t)(i)))          /* address of word i   */
 
-static uint c10_nf;                       /* pre-state: number of free chunks          */
-static size_t c10_fo[C10_NCHUNK + 2];     /* offsets of their headers, ascending        */
-static size_t c10_fs[C10_NCHUNK + 2];     /* their sz fields                            */
-static size_t c10_brk;                    /* offset of __brkval                         */
-static int c10_hasL;                      /* ghost live block present                   */
-static size_t c10_Lo, c10_Ls;             /* its header offset and size                 */
-static int c10_nlive;                     /* ghost: number of live blocks               */
+/* abstract heap state, in words: free chunk i has its header at word fo[i] and fs[i] payload words */
+struct c10_abs {
+    uint n;
+    size_t fo[C10_MAXN], fs[C10_MAXN];
+    size_t brk;
+};
+static struct c10_abs c10_pre;
+static int c10_hasL;          /* ghost live block present        */
+static size_t c10_Lo, c10_Ls; /* its header word and size (words) */
+static int c10_nlive;         /* ghost: number of live blocks     */
 
-#define C10_AL8(x) ((x) % 8 == 0)
-
-/* bytes of [0, brk) not covered by free chunks = bytes held by live blocks (headers included) */
-static inline size_t c10_live_bytes(size_t brk, uint nf, const size_t *fs)
+/* words of [0, brk) not covered by free chunks = words held by live blocks (headers included) */
+static inline size_t c10_abs_live(const struct c10_abs *s)
 {
-    size_t l = brk;
-    for (uint i = 0; i < C10_NCHUNK + 1; i++)
-        if (i < nf) l -= C10_HDR + fs[i];
+    size_t l = s->brk;
+    for (uint i = 0; i < C10_MAXN; i++)
+        if (i < s->n) l -= 1 + s->fs[i];
     return l;
 }
-
-/* H1-H3 on a (offsets, sizes, brk) description: used as the ASSUMED pre-state shape and as the ASSERTED
- * post-state shape */
-static inline int c10_shape_ok(uint nf, const size_t *fo, const size_t *fs, size_t brk)
+/* H1-H3 */
+static inline int c10_abs_ok(const struct c10_abs *s)
 {
-    int ok = brk <= C10_ARENA && C10_AL8(brk);
-    for (uint i = 0; i < C10_NCHUNK + 1; i++)
-        if (i < nf) {
-            size_t lim = i + 1 < nf ? fo[i + 1] : brk;
-            ok = ok && C10_AL8(fo[i]) && C10_AL8(fs[i]) && fs[i] >= sizeof(void *) && fo[i] <= C10_ARENA && fs[i] <= C10_ARENA &&
-                 fo[i] + C10_HDR + fs[i] + C10_MINLIVE <= lim && lim <= C10_ARENA;
-            if (i == 0) ok = ok && (fo[0] == 0 || fo[0] >= C10_MINLIVE);
+    int ok = s->n <= C10_MAXN && s->brk <= C10_WORDS;
+    for (uint i = 0; i < C10_MAXN; i++)
+        if (i < s->n) {
+            size_t lim = i + 1 < s->n ? s->fo[i + 1] : s->brk;
+            ok = ok && s->fs[i] >= 1 && s->fo[i] <= C10_WORDS && s->fs[i] <= C10_WORDS && lim <= C10_WORDS &&
+                 s->fo[i] + 1 + s->fs[i] + 2 <= lim;
+            if (i == 0) ok = ok && (s->fo[0] == 0 || s->fo[0] >= 2);
         }
     return ok;
 }
-/* block [o, o+HDR+s) lies inside [0, brk) and overlaps no free chunk */
-static inline int c10_block_ok(size_t o, size_t s, uint nf, const size_t *fo, const size_t *fs, size_t brk)
+/* the block with header word o and s payload words lies inside [0, brk) and overlaps no free chunk */
+static inline int c10_abs_block_ok(const struct c10_abs *st, size_t o, size_t s)
 {
-    int ok = C10_AL8(o) && C10_AL8(s) && o <= C10_ARENA && s <= C10_ARENA && o + C10_HDR + s <= brk;
-    for (uint i = 0; i < C10_NCHUNK + 1; i++)
-        if (i < nf) ok = ok && (o + C10_HDR + s <= fo[i] || fo[i] + C10_HDR + fs[i] <= o);
+    int ok = o <= C10_WORDS && s <= C10_WORDS && o + 1 + s <= st->brk;
+    for (uint i = 0; i < C10_MAXN; i++)
+        if (i < st->n) ok = ok && (o + 1 + s <= st->fo[i] || st->fo[i] + 1 + st->fs[i] <= o);
     return ok;
 }
+/* a LIVE block: additionally, what separates it from the heap start, the break and every free chunk is a
+ * whole number of live chunks, i.e. nothing or >= 2 words (H3: the heap is tiled by chunks of >= 2 words) */
+#define C10_GAP_OK(g) ((g) == 0 || (g) >= 2)
+static inline int c10_abs_live_ok(const struct c10_abs *st, size_t o, size_t s)
+{
+    int ok = s >= 1 && c10_abs_block_ok(st, o, s) && C10_GAP_OK(o) && C10_GAP_OK(st->brk - (o + 1 + s));
+    for (uint i = 0; i < C10_MAXN; i++)
+        if (i < st->n)
+            ok = ok && (o + 1 + s <= st->fo[i] ? C10_GAP_OK(st->fo[i] - (o + 1 + s)) : C10_GAP_OK(o - (st->fo[i] + 1 + st->fs[i])));
+    return ok;
+}
+/* index of the free chunk whose extent contains word o, or C10_MAXN */
+static inline uint c10_abs_find(const struct c10_abs *st, size_t o)
+{
+    uint j = C10_MAXN;
+    for (uint i = 0; i < C10_MAXN; i++)
+        if (i < st->n && st->fo[i] <= o && o < st->fo[i] + 1 + st->fs[i]) j = i;
+    return j;
+}
+static inline void c10_abs_remove(struct c10_abs *st, uint k)
+{
+    for (uint i = 0; i + 1 < C10_MAXN; i++)
+        if (i >= k) { st->fo[i] = st->fo[i + 1]; st->fs[i] = st->fs[i + 1]; }
+    st->n--;
+}
+/* the unique state satisfying H2/H3 in which the words of block (o, s) are free as well */
+static inline void c10_abs_free(struct c10_abs *st, size_t o, size_t s)
+{
+    uint k = 0;
+    for (uint i = 0; i < C10_MAXN; i++)
+        if (i < st->n && st->fo[i] < o) k = i + 1;
+    if (k < st->n && o + 1 + s == st->fo[k]) { /* upper neighbour free: one chunk */
+        s += 1 + st->fs[k];
+        c10_abs_remove(st, k);
+    }
+    if (k > 0 && st->fo[k - 1] + 1 + st->fs[k - 1] == o) { /* lower neighbour free: one chunk */
+        st->fs[k - 1] += 1 + s;
+    } else {
+        for (uint i = C10_MAXN - 1; i > 0; i--)
+            if (i > k) { st->fo[i] = st->fo[i - 1]; st->fs[i] = st->fs[i - 1]; }
+        st->fo[k] = o; st->fs[k] = s;
+        st->n++;
+    }
+    if (st->n > 0 && st->fo[st->n - 1] + 1 + st->fs[st->n - 1] == st->brk) { /* topmost chunk free: lower the break */
+        st->brk = st->fo[st->n - 1];
+        st->n--;
+    }
+}
+/* a block of rs payload words with header word ro has been carved out: returns 0 if that is not one of
+ * 1 a whole free chunk, 2 the upper part of a free chunk leaving >= 2 words, 3 new space at the break */
+static inline int c10_abs_alloc(struct c10_abs *st, size_t ro, size_t rs)
+{
+    uint j = c10_abs_find(st, ro);
+    if (j < C10_MAXN) {
+        if (ro == st->fo[j]) { /* the whole chunk */
+            if (rs != st->fs[j]) return 0;
+            c10_abs_remove(st, j);
+            return 1;
+        }
+        if (ro + 1 + rs != st->fo[j] + 1 + st->fs[j] || ro < st->fo[j] + 2) return 0;
+        st->fs[j] = ro - st->fo[j] - 1; /* split: the lower part stays free */
+        return 2;
+    }
+    if (ro != st->brk) return 0;
+    st->brk = ro + 1 + rs;
+    return 3;
+}
 
-/* generate the pre-state: assumptions are exactly H1-H5 */
-#define C10_HEAP_STATE(nf_, foarr, fsarr, brk_, fresh_, hasL_, Lo_, Ls_, nlive_)                                         \
-    do {                                                                                                                 \
-        __CPROVER_havoc_object(c10_arena_w);                                                                              \
-        c10_nf = (nf_); c10_brk = (brk_); c10_hasL = (hasL_) != 0; c10_Lo = (Lo_); c10_Ls = (Ls_); c10_nlive = (nlive_);  \
-        __CPROVER_assume(c10_nf <= C10_NCHUNK);                                                                          \
-        for (uint c10_i = 0; c10_i < C10_NCHUNK; c10_i++) { c10_fo[c10_i] = (foarr)[c10_i]; c10_fs[c10_i] = (fsarr)[c10_i]; } \
-        __CPROVER_assume(c10_shape_ok(c10_nf, c10_fo, c10_fs, c10_brk));                                                 \
-        __CPROVER_assume(!c10_hasL || (c10_Ls >= sizeof(void *) && c10_block_ok(c10_Lo, c10_Ls, c10_nf, c10_fo, c10_fs, c10_brk))); \
-        __CPROVER_assume(c10_nlive >= 0 && c10_nlive <= 1000 && c10_nlive >= c10_hasL &&                                 \
-                         (c10_nlive == 0) == (c10_live_bytes(c10_brk, c10_nf, c10_fs) == 0));                            \
-        __CPROVER_assume(!(fresh_) || (c10_brk == 0 && c10_nf == 0));                                                    \
-        c10_build(fresh_);                                                                                               \
-    } while (0)
+/* the real memory encodes exactly the abstract state */
+static inline int c10_mem_is(const struct c10_abs *st)
+{
+    int ok = __flp == (st->n ? C10_ADDR(st->fo[0]) : NULL);
+    for (uint i = 0; i < C10_MAXN; i++)
+        if (i < st->n && st->fo[i] + 1 < C10_WORDS)
+            ok = ok && C10_W(st->fo[i]) == 8 * st->fs[i] && C10_P(st->fo[i] + 1) == (i + 1 < st->n ? C10_ADDR(st->fo[i + 1]) : NULL);
+    ok = ok && (__brkval == c10_arena + 8 * st->brk || (st->brk == 0 && __brkval == NULL));
+    return ok;
+}
 
 static inline void c10_build(int fresh)
 {
-    struct __freelist **link = &__flp;
     for (uint i = 0; i < C10_NCHUNK; i++)
-        if (i < c10_nf) {
-            struct __freelist *c = (struct __freelist *)(c10_arena + c10_fo[i]);
-            c->sz = c10_fs[i];
-            *link = c;
-            link = &c->nx;
+        if (i < c10_pre.n) {
+            C10_ADDR(c10_pre.fo[i])->sz = 8 * c10_pre.fs[i];
+            C10_ADDR(c10_pre.fo[i])->nx = i + 1 < c10_pre.n ? C10_ADDR(c10_pre.fo[i + 1]) : NULL;
         }
-    *link = NULL;
-    __brkval = fresh ? NULL : c10_arena + c10_brk;
+    __flp = c10_pre.n ? C10_ADDR(c10_pre.fo[0]) : NULL;
+    __brkval = fresh ? NULL : c10_arena + 8 * c10_pre.brk;
     __malloc_heap_start = c10_arena;
-    if (c10_hasL) *(size_t *)(c10_arena + c10_Lo) = c10_Ls;
+    if (c10_hasL) C10_W(c10_Lo) = 8 * c10_Ls;
     __allocation_counter = c10_nlive;
 }
+
+/* generate the pre-state: the assumptions are exactly H1-H5 */
+#define C10_HEAP_STATE(n_, foarr, fsarr, brk_, fresh_, hasL_, Lo_, Ls_, nlive_)                                          \
+    do {                                                                                                                 \
+        __CPROVER_havoc_object(c10_arena_w);                                                                             \
+        c10_pre.n = (n_); c10_pre.brk = (brk_); c10_hasL = (hasL_) != 0; c10_Lo = (Lo_); c10_Ls = (Ls_); c10_nlive = (nlive_); \
+        __CPROVER_assume(c10_pre.n <= C10_NCHUNK);                                                                       \
+        for (uint c10_i = 0; c10_i < C10_MAXN; c10_i++) {                                                                \
+            c10_pre.fo[c10_i] = c10_i < C10_NCHUNK ? (foarr)[c10_i < C10_NCHUNK ? c10_i : 0] : 0;                        \
+            c10_pre.fs[c10_i] = c10_i < C10_NCHUNK ? (fsarr)[c10_i < C10_NCHUNK ? c10_i : 0] : 0;                        \
+        }                                                                                                                \
+        __CPROVER_assume(c10_abs_ok(&c10_pre));                                                                          \
+        __CPROVER_assume(!c10_hasL || c10_abs_live_ok(&c10_pre, c10_Lo, c10_Ls));                      \
+        __CPROVER_assume(c10_nlive >= 0 && c10_nlive <= 1000 && c10_nlive >= c10_hasL &&                                 \
+                         (c10_nlive == 0) == (c10_abs_live(&c10_pre) == 0));                                             \
+        __CPROVER_assume(!(fresh_) || (c10_pre.brk == 0 && c10_pre.n == 0));                                             \
+        c10_build(fresh_);                                                                                               \
+    } while (0)
 
 #ifdef REPLAY
 #define C10_IN_ARENA(p) ((char *)(p) >= c10_arena && (char *)(p) <= c10_arena + C10_ARENA)
 #define C10_OFF(p) ((size_t)((char *)(p) - c10_arena))
 #else
-#define C10_IN_ARENA(p) (__CPROVER_same_object((p), c10_arena) && (size_t)__CPROVER_POINTER_OFFSET(p) <= C10_ARENA)
+#define C10_IN_ARENA(p) (__CPROVER_same_object((p), c10_arena_w) && (size_t)__CPROVER_POINTER_OFFSET(p) <= C10_ARENA)
 #define C10_OFF(p) ((size_t)__CPROVER_POINTER_OFFSET(p))
 #endif
 
-/* post-state reader: __flp as (offset, size) arrays; -1 if a link leaves the arena, is misaligned or the
- * list is longer than C10_NCHUNK+1 (one more than the pre-state bound: free() may add a chunk) */
-static inline int c10_heap_walk(size_t *po, size_t *ps)
-{
-    struct __freelist *it = __flp;
-    int n = 0;
-    for (uint s = 0; s <= C10_NCHUNK + 1; s++) {
-        if (it == NULL)
-            return n;
-        if (s > C10_NCHUNK || !C10_IN_ARENA(it) || !C10_AL8(C10_OFF(it)) || C10_OFF(it) + sizeof(struct __freelist) > C10_ARENA)
-            return -1;
-        po[n] = C10_OFF(it);
-        ps[n] = it->sz;
-        n++;
-        it = it->nx;
-    }
-    return -1;
-}
-/* offset of __brkval, or SIZE_MAX when it does not point into the arena */
-static inline size_t c10_brk_now(void)
-{
-    if (__brkval == NULL) return 0;
-    if (!C10_IN_ARENA(__brkval)) return (size_t)-1;
-    return C10_OFF(__brkval);
-}
 /* the request size the allocator works with: rounded up to a multiple of __WORDSIZE (sic: the number of
- * BITS of a word used as a byte count), at least the size of the free-list link */
+ * BITS of a word used as a byte count), at least the size of the free-list link.  Used only to describe
+ * the known-finding regions. */
 static inline size_t c10_rounded(size_t len)
 {
     if (len % __WORDSIZE != 0) len += __WORDSIZE - len % __WORDSIZE;
     if (len < sizeof(void *)) len = sizeof(void *);
     return len;
 }
-static inline int c10_fits_free(size_t rl)
+static inline int c10_fits_free(const struct c10_abs *st, size_t rl)
 {
     int r = 0;
-    for (uint i = 0; i < C10_NCHUNK; i++)
-        if (i < c10_nf && c10_fs[i] >= rl) r = 1;
+    for (uint i = 0; i < C10_MAXN; i++)
+        if (i < st->n && 8 * st->fs[i] >= rl) r = 1;
     return r;
 }
+#define C10_ROUND_WRAPS(len) ((len) > (size_t)-1 - (__WORDSIZE - 1))
 #endif
